@@ -256,7 +256,7 @@ def run_case(case, tier):
                 stream_path = os.path.join(wd, "s.annexb")
                 svt.write_tu(units, stream_path)
                 classes.append("annexb")
-        s = svt.decode(stream_path, "svt", os.path.join(wd, "s"), variant=variant, threads=1, is16=dec["is16"], annexb=dec["annexb"], slack=32 if variant == "asan" else 0, timeout=300)
+        s = svt.decode(stream_path, "svt", os.path.join(wd, "s"), variant=variant, threads=1, is16=dec["is16"], annexb=dec["annexb"], slack=0, timeout=300)
         viol = []
         si = streaminfo.analyze(packets)
         tools = s.info.get("tools")
